@@ -1145,7 +1145,7 @@ func (f *Frame) execBinOp(i *ssa.BinOp, st *State, r string) Val {
 	switch i.Op {
 	case token.ADD:
 		if x.S == "Str" {
-			return tv("(sconcat "+x.T+" "+y.T+")", "Str")
+			return tv(rightCat(x.T, y.T), "Str")
 		}
 		return bin("+")
 	case token.SUB:
@@ -1601,4 +1601,49 @@ func (f *Frame) fnParamModKeys(v ssa.Value) ([]string, bool) {
 		}
 	}
 	return out, true
+}
+
+
+// rightCat builds the concatenation of two string terms right-nested: ((a + b) + c) and (a + (b + c)) get the same
+// term, the one the definition of a Sprintf format uses.
+func rightCat(x, y string) string {
+	if strings.HasPrefix(x, "(sconcat ") && strings.HasSuffix(x, ")") {
+		body := x[len("(sconcat ") : len(x)-1]
+		// split body into its two top-level arguments
+		depth := 0
+		for i := 0; i < len(body); i++ {
+			switch body[i] {
+			case '(':
+				depth++
+			case ')':
+				depth--
+			case ' ':
+				if depth == 0 {
+					a, b := body[:i], body[i+1:]
+					if a != "" && b != "" && balanced(a) && balanced(b) {
+						return "(sconcat " + a + " " + rightCat(b, y) + ")"
+					}
+					return "(sconcat " + x + " " + y + ")"
+				}
+			}
+		}
+	}
+	return "(sconcat " + x + " " + y + ")"
+}
+
+func balanced(t string) bool {
+	d := 0
+	for i := 0; i < len(t); i++ {
+		if t[i] == '(' {
+			d++
+		} else if t[i] == ')' {
+			d--
+			if d < 0 {
+				return false
+			}
+		} else if t[i] == ' ' && d == 0 {
+			return false
+		}
+	}
+	return d == 0
 }
